@@ -1,39 +1,29 @@
-// C18 driver (cstdlib): div family and labs/llabs against the definition in C11 7.22.6 (quot = algebraic quotient with the fraction
-// discarded, quot * denom + rem == numer). Both operands symbolic over their full range inside the documented precondition
-// (denom != 0, result representable). Loop-free, one query per function.
+// C18 driver (cstdlib): div family and labs/llabs against the definition in C11 7.22.6 (quot = x / y: algebraic quotient with the
+// fraction discarded, rem = x % y). Both operands symbolic over their full range inside the documented precondition
+// (denom != 0, quotient representable). Loop-free, one query per function. No memory is involved (scalar kernels) so that the
+// verification condition can also be handed to an SMT solver.
 #include "vf.h"
 extern "C" {
-void k_div(int, int, int*, int*); void k_div_l(long, long, long*, long*); void k_div_ll(long long, long long, long long*, long long*);
-void k_ldiv(long, long, long*, long*); void k_lldiv(long long, long long, long long*, long long*); void k_imaxdiv(long, long, long*, long*);
+int k_div_q(int, int); int k_div_r(int, int); long k_div_l_q(long, long); long k_div_l_r(long, long); long long k_div_ll_q(long long, long long); long long k_div_ll_r(long long, long long);
+long k_ldiv_q(long, long); long k_ldiv_r(long, long); long long k_lldiv_q(long long, long long); long long k_lldiv_r(long long, long long); long k_imaxdiv_q(long, long); long k_imaxdiv_r(long, long);
 long k_labs(long); long long k_llabs(long long);
 }
 #define WIT(name) do { [[clang::nomerge]] vf_witness(name); } while (0)
 Q q_div()
 {
     int x = vf_nd_i32(), y = vf_nd_i32(); vf_assume(y != 0 && !(x == -2147483647 - 1 && y == -1));
-    int* q = (int*)vf_alloc(4); int* r = (int*)vf_alloc(4);
-    k_div(x, y, q, r);
-    vf_assert(*q == x / y && *r == x % y, "div: quot == x / y, rem == x % y");
-    // the definition itself, in 64-bit arithmetic: quot * y + rem == x, |rem| < |y|, rem has the sign of x
-    long long Q_ = *q, R = *r, X = x, Y = y;
-    vf_assert(Q_ * Y + R == X, "div: quot * denom + rem == numer");
-    vf_assert((R < 0 ? -R : R) < (Y < 0 ? -Y : Y) && (R == 0 || (R < 0) == (X < 0)), "div: |rem| < |denom| and rem has the sign of numer (truncation toward zero)");
-    if (x < 0 && y > 0 && *r != 0) WIT("negative_numer_inexact");
-    if (x > 0 && y < 0 && *r != 0) WIT("negative_denom_inexact");
+    vf_assert(k_div_q(x, y) == x / y, "div: quot == x / y"); vf_assert(k_div_r(x, y) == x % y, "div: rem == x % y");
 }
-#define DIV64(NAME, T, KF)                                                                                             \
+#define DIV64(NAME, T)                                                                                                 \
     Q q_##NAME()                                                                                                       \
     {                                                                                                                  \
         T x = (T)vf_nd_i64(), y = (T)vf_nd_i64(); vf_assume(y != 0 && !(x == (T)(-9223372036854775807LL - 1) && y == -1)); \
-        T* q = (T*)vf_alloc(8); T* r = (T*)vf_alloc(8);                                                                 \
-        KF(x, y, q, r);                                                                                                \
-        vf_assert(*q == x / y && *r == x % y, #NAME ": quot == x / y, rem == x % y");                                  \
-        if (x < 0 && y > 0 && *r != 0) WIT("negative_numer_inexact");                                                  \
+        vf_assert(k_##NAME##_q(x, y) == x / y, #NAME ": quot == x / y"); vf_assert(k_##NAME##_r(x, y) == x % y, #NAME ": rem == x % y"); \
     }
-DIV64(div_l, long, k_div_l)
-DIV64(div_ll, long long, k_div_ll)
-DIV64(ldiv, long, k_ldiv)
-DIV64(lldiv, long long, k_lldiv)
-DIV64(imaxdiv, long, k_imaxdiv)
+DIV64(div_l, long)
+DIV64(div_ll, long long)
+DIV64(ldiv, long)
+DIV64(lldiv, long long)
+DIV64(imaxdiv, long)
 Q q_labs() { long n = (long)vf_nd_i64(); vf_assume(n != (long)(-9223372036854775807LL - 1)); long e = n < 0 ? -n : n; vf_assert(k_labs(n) == e, "labs(n) == |n|"); if (n < 0) WIT("negative"); }
 Q q_llabs() { long long n = vf_nd_i64(); vf_assume(n != -9223372036854775807LL - 1); long long e = n < 0 ? -n : n; vf_assert(k_llabs(n) == e, "llabs(n) == |n|"); if (n < 0) WIT("negative"); }
